@@ -35,7 +35,7 @@ RULE = (
     "2..4 x 2..4 lattice, on the boundary, or 3 corners; bilinear distortion; optional crop => non-identity pixel "
     "affine). Arrays: wrap_xr or xr_zeros, optional leading time (scalar, 1..3) and trailing band (1..3) axis, numpy "
     "or dask backing, default or custom CRS coordinate name. History = list of <= 8 ops: isel/getitem with "
-    "constructed non-empty slices (steps +-1,+-2,+-3,5,-7, open/negative/overshooting bounds, 35% length-1), "
+    "constructed non-empty slices (steps +-1,+-2,+-3,5,-7, open/negative/overshooting bounds, explicit length-1 results), "
     "arithmetic (x*2+1, x+x, x/2, np.abs, x+copy, x>1), astype, pickle (protocol 2..5), copy, compute. Reprojection: "
     "source box centred on a lon/lat point inside the valid area of both CRSs (all 69 ordered pool pairs whose valid "
     "areas intersect, the 12 disjoint ones to an explicit GeoBox only), destination an explicit GeoBox (exact family, "
@@ -70,7 +70,8 @@ STALE_KEYS = ("crs", "crs_wkt", "grid_mapping", "gcps", "epsg")  # documented as
 
 # ============================================================================ boxes
 def _side(max_side: int):
-    return st.one_of(st.just(1), st.integers(2, 6), st.integers(2, 6), st.integers(7, max_side), st.integers(7, max_side))
+    # Hypothesis favours the first alternatives; the unit side is deliberately not among them (ends up at 10-15%)
+    return st.one_of(st.integers(2, 6), st.integers(7, max_side), st.integers(2, max_side), st.just(1), st.integers(2, 6))
 
 
 @st.composite
@@ -473,7 +474,15 @@ def s_slice(draw, n: int):
     nat = 0 if step > 0 else n - 1
     i0 = draw(st.one_of(st.just(nat), st.integers(0, n - 1)))
     maxm = ((n - 1 - i0) // step + 1) if step > 0 else (i0 // (-step) + 1)
-    m = draw(st.one_of(st.just(1), st.just(maxm), st.just(maxm), st.integers(1, maxm)))
+    mk = draw(st.integers(0, 9))  # mostly keep the axis long, so that histories stay informative
+    if mk <= 4:
+        m = maxm
+    elif mk <= 7:
+        m = draw(st.integers((maxm + 1) // 2, maxm))
+    elif mk == 8:
+        m = draw(st.integers(1, maxm))
+    else:
+        m = 1
     want = [i0 + k * step for k in range(m)]
     last = want[-1]
     sp = draw(st.integers(0, 5))
